@@ -1,18 +1,20 @@
-"""C19 finding: completed outputs of pooled tasks that are not running /
-failed / succeeded are not restored on restart.
+"""C19 finding: completed outputs of pooled tasks that are waiting or
+submitted are not restored on restart.
 
 TaskPool.load_db_task_pool_for_restart() reloads the completed outputs
 recorded in the task_outputs table only
 
     if itask.state(TASK_STATUS_RUNNING, TASK_STATUS_FAILED,
-                   TASK_STATUS_SUCCEEDED)
+                   TASK_STATUS_SUBMIT_FAILED, TASK_STATUS_SUCCEEDED)
 
-so after a stop + restart
+(TASK_STATUS_SUBMIT_FAILED was added by /repo commit f2572f8) so after a
+stop + restart
 
   A. a *submitted* task has lost its `submitted` output;
   B. a task *waiting* for an execution retry (delay PT1H) has lost
      `submitted` and `started` (and any custom output) of the failed try;
-  C. a retained *submit-failed* task has lost `submit-failed`.
+  C. (repaired by f2572f8; shown for comparison) a retained *submit-failed*
+     task keeps `submit-failed`.
 
 C19 states that a restart restores every pooled task's completed outputs.
 (Effect is mostly cosmetic for A - later messages imply `submitted` again -
@@ -22,7 +24,7 @@ signature C19:continued-run-final-outputs-differ:outputs-not-restored-at-
 restart.)
 
 Candidate fix: load the recorded outputs for every status (the DB column is
-the truth for what has been completed), not only for the three listed.
+the truth for what has been completed), not only for the four listed.
 
 Uses the verification harness (vf.sim: real Scheduler objects, single-stepped
 main loop, virtual job cluster) because a stop/restart needs a scheduler.
